@@ -394,9 +394,16 @@ claim("C19", "S1",
       "Key semantics and group contents are NOT decided.",
       "ast typestate signatures + def-use of the writer map + negation-wrapper check")
 
-na("C15", "arithmetic over run-time timestamps (queue ordering by timestamp + duetime, 'exactly d later'); no structural "
-          "clause that is both necessary and robust beyond ownership/guarding/falsy rules already decided under "
-          "C02/C03/C08/C09, whose scope includes these files")
+claim("C15", "S1",
+      "Necessary structural clauses of the time-shifting operators. delay: notifications observed materialized + "
+      "timestamped, queued at timestamp + delay, drained from the front only when due (<=), replayed with accept, re-armed "
+      "after max(0, head - now); an error empties the queue, is recorded and delivered at once (identity test), or by the "
+      "running drain. delay_with_mapper: element delivered on the delay's first signal (next or completion), holder "
+      "registered before subscribing and removed after, no serial clobber by a synchronous subscription delay, completion "
+      "join. delay_subscription = delay_with_mapper(timer, empty). timestamp / time_interval: per-element reading of the "
+      "subscription scheduler's clock, interval = now - last then last = now. Scheduler forwarded everywhere.",
+      "'Exactly d later' for concrete timelines is run-time arithmetic and is not decided; scheduler arithmetic is C29/C36.",
+      "ast structural rules (role inference, guard dominance, exact pipelines) + exception-identity taint + synchronous-callback hazard rules")
 
 
 def all_ids():
